@@ -444,7 +444,11 @@ impl Gen {
                     })
                     .collect();
                 let hint = if self.rng.gen_bool(0.7) { n } else { self.rng.gen_range(0..=n + 3) };
-                json!({"op":"Extend","s":s,"items":items,"hint":hint})
+                if self.cfg.limits && self.rng.gen_bool(0.4) {
+                    json!({"op":"Extend","s":s,"items":items,"hint": usize_near(&mut self.rng, len)})
+                } else {
+                    json!({"op":"Extend","s":s,"items":items,"hint":hint})
+                }
             }
             91 => json!({"op":"Clear","s":s}),
             92 => {
